@@ -833,6 +833,8 @@ class Drawing:
             symbol, dependencies = diagram.get_svg_symbol(name)
         except ValueError:
             symbol, dependencies = diagram.get_svg_symbol("Error")
+            # The callers reference the symbol by the requested name.
+            symbol["id"] = f"{name}Symbol"
         self.__drawing.defs.add(symbol)
         for dep in dependencies:
             if dep not in self.deco_cache:
